@@ -32,6 +32,10 @@ type groupCase struct {
 	// UpperKey: the (enum) key column k1 is replaced by its built-in ToUpper before grouping: values that
 	// differ only in case become one key
 	UpperKey bool `json:"upper_key,omitempty"`
+	// Chain: the call under test runs on the RESULT of an earlier Distinct over the same columns
+	// (1: opposite Null setting, 2: same setting, 3: opposite setting, then sorted by the first key,
+	// 4: opposite setting over the first key column only, then filtered with a clause that keeps every row)
+	Chain int `json:"chain,omitempty"`
 }
 
 func c04KeyAlphabet(k model.Kind) []model.Cell {
@@ -293,6 +297,24 @@ func runGroupCase(c groupCase) *core.Failure {
 		if in.Err {
 			return core.Failf("ToUpper on the key column failed: %s", in.ErrText)
 		}
+	}
+	if c.Chain > 0 {
+		first := groupbyFnsWith(c, c.GroupNull != (c.Chain != 2))
+		if c.Chain == 4 && len(c.By) > 0 {
+			first = []groupby.ConfigFunc{groupby.Columns(c.By[0]), groupby.Null(!c.GroupNull)}
+		}
+		qf = qf.Distinct(first...)
+		if c.Chain == 3 && len(c.By) > 0 {
+			qf = qf.Sort(qframe.Order{Column: c.By[0]})
+		}
+		if c.Chain == 4 {
+			qf = qf.Filter(qframe.Or(qframe.Filter{Column: "vb", Comparator: "=", Arg: true}, qframe.Filter{Column: "vb", Comparator: "=", Arg: false}))
+		}
+		in = model.Observe(qf)
+		if in.Err {
+			return core.Failf("the earlier Distinct failed: %s", in.ErrText)
+		}
+		in.AdoptMeta(c.Frame)
 	}
 	before := in.String()
 	by := c.By
@@ -794,8 +816,14 @@ func groupSizeSweepRun(ctx *core.Ctx, op string) {
 func manyRowsLayerRun(ctx *core.Ctx, op string) {
 	type spec struct{ n, keys int }
 	specs := []spec{{255, 37}, {256, 37}, {257, 37}, {600, 37}, {1500, 37},
+		// exactly 2^k (and one less, one more) distinct keys from a contiguous range, every key at least twice
+		{135, 63}, {135, 64}, {135, 65}, {263, 127}, {263, 128}, {263, 129}, {519, 255}, {519, 256}, {519, 257},
+		{1031, 511}, {1031, 512}, {1031, 513}, {2055, 1023}, {2055, 1024}, {2055, 1025}, {8199, 4095}, {8199, 4096}, {8199, 4097},
 		// all keys distinct (a class first seen in the last rows must still get its row), around 2*4096 and beyond
 		{8191, 8191}, {8192, 8192}, {8193, 8193}, {10000, 10000}, {20001, 5000}}
+	if !ctx.Quick() {
+		specs = append(specs, spec{131079, 65535}, spec{131079, 65536}, spec{131079, 65537})
+	}
 	for _, sp := range specs {
 		n := sp.n
 		for _, kind := range []model.Kind{model.Int, model.String} {
@@ -810,6 +838,8 @@ func manyRowsLayerRun(ctx *core.Ctx, op string) {
 				for r := 0; r < n; r++ {
 					key := (r * 29) % sp.keys
 					switch {
+					case kind == model.Int && sp.keys > 37 && sp.keys < 8191:
+						k1.Cells = append(k1.Cells, model.I(key-sp.keys/2)) // a range around zero
 					case kind == model.Int:
 						k1.Cells = append(k1.Cells, model.I(key))
 					case key == 11:
@@ -873,6 +903,92 @@ func upperKeyLayerRun(ctx *core.Ctx, op string) {
 	})
 }
 
+// oddNamesLayerRun: key columns whose names look like decorated versions of each other ("-k" next to "k",
+// "k desc", "+k", ...): a column name is taken literally, whatever other columns exist.
+func oddNamesLayerRun(ctx *core.Ctx, op string) {
+	pairs := [][2]string{{"-k", "k"}, {"k", "-k"}, {"+k", "k"}, {"!k", "k"}, {"k desc", "k"}, {"k", "K"}, {" k", "k"}, {"-k", "w"}, {"k.1", "k"}, {"k,w", "w"}}
+	for _, pr := range pairs {
+		forEachSeq(3, 4, func(seq []int) {
+			for _, by := range [][]string{{pr[0]}, {pr[1]}, {pr[0], pr[1]}, {}} {
+				for _, gn := range []bool{false, true} {
+					if !ctx.Mine() {
+						continue
+					}
+					c1 := model.Col{Name: pr[0], Kind: model.Int}
+					c2 := model.Col{Name: pr[1], Kind: model.Int}
+					for _, v := range seq {
+						c1.Cells = append(c1.Cells, model.I(v/2))
+						c2.Cells = append(c2.Cells, model.I(v%2))
+					}
+					f := model.Frame{N: 3, Cols: []model.Col{c1, c2}}
+					for _, vc := range c04ValCols {
+						if op == "distinct" && vc.Name != "vb" {
+							continue
+						}
+						vc.Cells = vc.Cells[:3]
+						f.Cols = append(f.Cols, vc)
+					}
+					c := groupCase{Op: op, Frame: f, Shape: int(ctx.Index() % int64(model.NShapes)), By: by, GroupNull: gn, ByDefault: len(by) == 0}
+					ctx.Exec(c, func() *core.Failure { return runGroupCase(c) })
+					ctx.Outcome("api/decorated-column-names")
+					if g := partitionRows(f, by, gn); len(g) > 1 && len(g) < 3 {
+						ctx.Nontrivial(fmt.Sprintf("names|%v|%v|%v|%v", pr, seq, by, gn))
+					}
+				}
+			}
+		})
+	}
+}
+
+// chainLayerRun: the call under test on the result of an earlier Distinct (see groupCase.Chain); one or two
+// key columns of every type over {null, x, y}.
+func chainLayerRun(ctx *core.Ctx, op string) {
+	kinds := []model.Kind{model.Int, model.Float, model.Bool, model.String, model.Enum}
+	for _, k1 := range kinds {
+		a1 := c04KeyAlphabet(k1)
+		for n := 2; n <= 4; n++ {
+			forEachSeq(n, len(a1), func(seq []int) {
+				for _, by := range [][]string{{"k1"}, {"k1", "k2"}, {}} {
+					for _, gn := range []bool{false, true} {
+						for chain := 1; chain <= 4; chain++ {
+							if !ctx.Mine() {
+								continue
+							}
+							c1 := model.Col{Name: "k1", Kind: k1}
+							c2 := model.Col{Name: "k2", Kind: model.String}
+							if k1 == model.Enum {
+								c1.EnumVals = []string{"b", "a"}
+							}
+							for i, v := range seq {
+								c1.Cells = append(c1.Cells, a1[v])
+								if i%2 == 0 {
+									c2.Cells = append(c2.Cells, model.Null())
+								} else {
+									c2.Cells = append(c2.Cells, model.S("q"))
+								}
+							}
+							f := model.Frame{N: n, Cols: []model.Col{c1, c2}}
+							for _, vc := range c04ValCols {
+								if op == "distinct" && vc.Name != "vb" {
+									continue
+								}
+								vc.Cells = vc.Cells[:n]
+								f.Cols = append(f.Cols, vc)
+							}
+							c := groupCase{Op: op, Frame: f, Shape: int(ctx.Index() % int64(model.NShapes)), By: by, GroupNull: gn, ByDefault: len(by) == 0, Chain: chain}
+							ctx.Exec(c, func() *core.Failure { return runGroupCase(c) })
+							ctx.Outcome("api/after-an-earlier-distinct")
+							if g := partitionRows(f, by, true); len(g) < n {
+								ctx.Nontrivial(fmt.Sprintf("chain|%s|%v|%v|%v|%d", k1, seq, by, gn, chain))
+							}
+						}
+					}
+				}
+			})
+		}
+	}
+}
+
 func init() {
 	common := []string{
 		"layer 1 drives the repository's hash table (internal/grouper) through its Comparable interface with harness-chosen hash values; layer 2 uses the public API with the real runtime hash",
@@ -900,6 +1016,8 @@ func init() {
 			groupSizeSweepRun(ctx, "groupby")
 			manyRowsLayerRun(ctx, "groupby")
 			upperKeyLayerRun(ctx, "groupby")
+			oddNamesLayerRun(ctx, "groupby")
+			chainLayerRun(ctx, "groupby")
 		},
 		Replay: replayGroup,
 	})
@@ -923,6 +1041,8 @@ func init() {
 			groupSizeSweepRun(ctx, "distinct")
 			manyRowsLayerRun(ctx, "distinct")
 			upperKeyLayerRun(ctx, "distinct")
+			oddNamesLayerRun(ctx, "distinct")
+			chainLayerRun(ctx, "distinct")
 		},
 		Replay: replayGroup,
 	})
